@@ -249,20 +249,20 @@ var reqMethods = []string{"GET", "POST", "PUT", "DELETE", "PATCH", "OPTIONS", "O
 
 func genCase(t *rapid.T) *Case {
 	c := &Case{}
-	c.G.TS = rapid.SampledFrom([]int{rt.TSNone, rt.TSIgnore, rt.TSRedirect}).Draw(t, "globalTS")
+	c.G.TS = gen.Pick(t, []int{rt.TSNone, rt.TSIgnore, rt.TSRedirect}, "globalTS")
 	c.G.NoMethod = rapid.Bool().Draw(t, "noMethod")
 	c.G.AutoOptions = rapid.Bool().Draw(t, "autoOptions")
-	n := rapid.IntRange(1, 6).Draw(t, "npatterns")
-	hostW := rapid.SampledFrom([]int{3, 1000, 1000}).Draw(t, "hostweight")
+	n := gen.IntR(t, 1, 6, "npatterns")
+	hostW := gen.Pick(t, []int{3, 1000, 1000}, "hostweight")
 	var pool []string
 	for i := 0; i < n; i++ {
 		p := gen.Pattern(t, pool, hostW, false)
 		pool = append(pool, p)
 		ms := rapid.SliceOfNDistinct(rapid.SampledFrom(regMethods), 1, 3, rapid.ID[string]).Draw(t, "methods")
 		for _, m := range ms {
-			ts := rapid.SampledFrom([]int{0, 0, 0, rt.TSIgnore, rt.TSRedirect, rt.TSOff}).Draw(t, "routeTS")
+			ts := gen.Pick(t, []int{0, 0, 0, rt.TSIgnore, rt.TSRedirect, rt.TSOff}, "routeTS")
 			pat := p
-			if rapid.IntRange(0, 5).Draw(t, "slashvariant") == 0 {
+			if gen.IntR(t, 0, 5, "slashvariant") == 0 {
 				// same path under another method, differing only by the trailing slash
 				if strings.HasSuffix(pat, "/") && len(pat) > 1 && !strings.HasSuffix(pat, "//") {
 					pat = pat[:len(pat)-1]
@@ -273,25 +273,25 @@ func genCase(t *rapid.T) *Case {
 			c.Routes = append(c.Routes, rt.RouteSpec{Method: m, Pattern: pat, TS: ts})
 		}
 	}
-	nreq := rapid.IntRange(1, 6).Draw(t, "nreq")
+	nreq := gen.IntR(t, 1, 6, "nreq")
 	for i := 0; i < nreq; i++ {
-		if rapid.IntRange(0, 12).Draw(t, "star") == 0 {
+		if gen.IntR(t, 0, 12, "star") == 0 {
 			c.Reqs = append(c.Reqs, rt.Req{Method: "OPTIONS", Path: "*"})
 			continue
 		}
-		src := rapid.SampledFrom(c.Routes).Draw(t, "src")
+		src := gen.Pick(t, c.Routes, "src")
 		if !ref.ValidPattern(src.Pattern, 1<<16, 1<<16) {
 			continue
 		}
 		host, path := gen.Instantiate(t, src.Pattern)
 		path = gen.MutatePath(t, path)
-		if rapid.IntRange(0, 4).Draw(t, "hostmut") == 0 {
+		if gen.IntR(t, 0, 4, "hostmut") == 0 {
 			host = gen.MutateHost(t, host)
 		}
 		if strings.Contains(path, "//") {
 			continue
 		}
-		c.Reqs = append(c.Reqs, rt.Req{Method: rapid.SampledFrom(reqMethods).Draw(t, "reqmethod"), Host: host, Path: path})
+		c.Reqs = append(c.Reqs, rt.Req{Method: gen.Pick(t, reqMethods, "reqmethod"), Host: host, Path: path})
 	}
 	return c
 }
